@@ -4,7 +4,7 @@
    run (GenRender.v); the theorems below are re-proved against them. *)
 From Coq Require Import List NArith Bool.
 Import ListNotations.
-Require Import Cat Tree GenRender Render RenderProofs.
+Require Import Cat Tree GenRender Render RenderProofs RenderFrame.
 Open Scope N_scope.
 
 (* rendering in any offered format leaves every tree, token and category of the store as it was *)
@@ -36,7 +36,7 @@ Definition ex_tree : tree :=
           (Leaf (Atom [83] FNone) (ex_tok [114;117;110;115] [114;117;110] [86;66;90]) [108;101;120] [60;108;101;120;62])).
 Definition ex_store : store := {| trees := [[ex_tree; ex_tree]; [placeholder]]; oplog := [] |}.
 
-Example ex_offered_nonempty : length offered_formats = 19%nat.
+Example ex_offered_nonempty : forallb (fun lang => negb (Nat.ltb (length (offered_for lang)) 1)) [l_en; l_ja] = true.
 Proof. vm_compute. reflexivity. Qed.
 
 Example ex_history :
